@@ -454,6 +454,10 @@ func (d decimalSerializer) serialize(ctx context.Context, typ sql.Type, value in
 	for len(stringIntegerVal) < int(numFullDigits) {
 		stringIntegerVal = "0" + stringIntegerVal
 	}
+	// When the type has no integer digits (precision == scale), drop the "0" integer part of the string format
+	for len(stringIntegerVal) > int(numFullDigits) && stringIntegerVal[0] == '0' {
+		stringIntegerVal = stringIntegerVal[1:]
+	}
 
 	buffer := make([]byte, length)
 	bufferPos := 0
